@@ -129,7 +129,9 @@ def parse_sources(src=None):
     g = re.sub(r"\s+", "", genc)
     shapes = {
         "gc0UnderIdLen": r"#definegc0UnderIdLen\(buf,i\)\\\(gcvIdLen==0\|\|bufPosition\(buf\)\+gcvIdCharc\[i\]<=gcvIdLen\)",
-        "gc0ValidIdInBuf": r"for\(;\*s&&gc0UnderIdLen\(buf,\(int\)\*s\);s\+\+\)\{intk=gcvIdChars\[\(int\)\*s\];if\(k==NOT_CHANGED\)bufAdd1\(buf,\*s\);elseif\(k!=NOT_PRINTABLE\)bufPuts\(buf,ccIdStr\(k\)\);\}",
+        "gc0ValidIdInBuf": r"for\(;\*s&&gc0UnderIdLen\(buf,\(UByte\)\*s\);s\+\+\)\{intk=gcvIdChars\[\(UByte\)\*s\];if\(k==NOT_CHANGED\)bufAdd1\(buf,\*s\);elseif\(k!=NOT_PRINTABLE\)bufPuts\(buf,ccIdStr\(k\)\);\}",
+        "gcvIdChars": r"staticintgcvIdChars\[UCHAR_MAX\+1\];staticintgcvIdCharc\[UCHAR_MAX\+1\];",
+        "gc0InitSpecialChars": r"for\(i=0;i<UCHAR_MAX\+1;i\+\+\)\{if\(isalnum\(i\)\)\{gcvIdChars\[i\]=NOT_CHANGED;gcvIdCharc\[i\]=1;\}else\{gcvIdChars\[i\]=NOT_PRINTABLE;gcvIdCharc\[i\]=0;\}\}for\(i=0;ccIdChar\(i\)!=0;i\+\+\)\{gcvIdChars\[ccIdChar\(i\)\]=i;gcvIdCharc\[ccIdChar\(i\)\]=strLength\(ccIdStr\(i\)\);\}",
         "gc0IdHashInBuf": r"hashNum=strHash\(s\)%VAR_HASH;for\(ndig=0;hashNum;hashNum/=36,ndig\+\+\)alphnum\[ndig\]=hashNum%36;",
     }
     p["drift"] = [k for k, rx in shapes.items() if not re.search(rx, g)]
@@ -192,4 +194,986 @@ def generate(src=None):
           "Definition tags : list (list N) :=", "  ["]
     L.append(";\n".join("   %s (* %s *)" % (coq_str([ord(c) for c in t]), t) for t in p["tags"]))
     L += ["  ].", ""]
+    # A witness that the 'never' of the property cannot hold: two distinct alphanumeric names with the
+    # same hash residue and the same truncated encoding at the default limit.  Searched here (birthday
+    # search over the residues), CHECKED by Coq (CName/Current.v: global_names_distinct_refuted).
+    w = find_hash_collision(p)
+    p["collision"] = w
+    if w:
+        L += ["(* found by birthday search over strHash %% VAR_HASH; checked in CName/Current.v *)",
+              "Definition collide1 : list N := %s. (* %s *)" % (coq_str([ord(c) for c in w[0]]), w[0]),
+              "Definition collide2 : list N := %s. (* %s *)" % (coq_str([ord(c) for c in w[1]]), w[1]), ""]
     return "\n".join(L), p
+
+
+def py_str_hash(p, bs):
+    h = 0
+    for c in bs:
+        h = (h ^ ((h << p["hash_shift"]) & (2 ** 64 - 1))) & (2 ** 64 - 1)
+        cc = c if c < 128 else c - 256
+        h = (h + cc + p["hash_add"]) & (2 ** 64 - 1)
+        h &= p["hash_mask"]
+    return h
+
+
+def find_hash_collision(p, prefix=None, suffix="", limit=4000000):
+    """Two distinct names prefix+<k>+suffix with equal strHash % VAR_HASH (deterministic search)."""
+    prefix = prefix if prefix is not None else "aNameLongEnoughToBeTruncatedAtTheDefaultLimit"
+    seen = {}
+    pre = [ord(c) for c in prefix]
+    suf = [ord(c) for c in suffix]
+    alphabet = "abcdefghijklmnopqrstuvwxyz"
+    for k in range(limit):
+        t, x = "", k
+        for _ in range(6):
+            t += alphabet[x % 26]
+            x //= 26
+        r = py_str_hash(p, pre + [ord(c) for c in t] + suf) % p["var_hash"]
+        if r in seen:
+            return (prefix + seen[r] + suffix, prefix + t + suffix, r)
+        seen[r] = t
+    return None
+
+
+# ------------------------------------------------------------------ end-to-end: program generator
+
+WORDS = ["alpha", "Bravo", "Charlie", "Delta", "Echo", "Foxtrot", "Golf", "Hotel", "India", "Juliet", "Kilo",
+         "Lima", "Mike", "November", "Oscar", "Papa", "Quebec", "Romeo", "Sierra", "Tango", "Uniform",
+         "Victor", "Whiskey", "Xray", "Yankee", "Zulu"]
+
+
+def gen_program(rng, tag):
+    """A deterministic two-unit Aldor program: the library unit exports many globals with long
+    names (20..80 characters) sharing prefixes of varied length, names ending in ? and !, a domain
+    with operator-character exports (+ - * <= = apply set! zero? #) and long-named exports; the
+    main unit imports everything and prints values."""
+    base = "the" + "".join(w.capitalize() for w in rng.sample(WORDS, 14))   # > 80 characters
+    while len(base) < 90:
+        base += rng.choice(WORDS).capitalize()
+    nf = rng.randint(8, 14)
+    names, funs = [], []
+    used = set()
+    for i in range(nf):
+        total = rng.randint(20, 80)
+        shared = rng.randint(max(8, total - 12), total - 1)       # long shared prefix
+        tail = ""
+        while len(tail) < total - shared:
+            tail += rng.choice("ABCDEFGHJKLMNPQRSTUVWXYZabcdefghjkmnpqrstuvwxyz0123456789")
+        kind = rng.choice(["int", "int", "int", "bool", "bang"])
+        nm = base[:shared] + tail + {"int": "", "bool": "?", "bang": "!"}[kind]
+        if nm in used:
+            continue
+        used.add(nm)
+        k = rng.randint(2, 97)
+        if kind == "int":
+            body = rng.choice(["x + %d" % k, "x * %d - 1" % k, "%d - x" % k, "x * x + %d" % k])
+            funs.append("%s(x: MachineInteger): MachineInteger == %s;" % (nm, body))
+        elif kind == "bool":
+            funs.append("%s(x: MachineInteger): Boolean == x > %d;" % (nm, k % 7))
+        else:
+            funs.append("%s(x: MachineInteger): MachineInteger == { x * %d }" % (nm, k))
+        names.append((nm, kind))
+    consts = []
+    for i in range(rng.randint(2, 4)):
+        nm = base[:rng.randint(20, 60)] + "Konst%d" % i
+        consts.append((nm, rng.randint(100, 999)))
+    k1, k2 = rng.randint(2, 9), rng.randint(2, 9)
+    dom = "Box%s" % tag.capitalize()
+    longexp = base[:rng.randint(30, 70)] + "InBox"
+    lib = ['#include "aldor"', '#include "aldorio"', "", "import from MachineInteger;", ""] + funs
+    lib += ["%s: MachineInteger == %d;" % c for c in consts]
+    lib += ["""
+%(dom)s: with {
+    box: MachineInteger -> %%;
+    unbox: %% -> MachineInteger;
+    +: (%%, %%) -> %%;
+    -: %% -> %%;
+    *: (%%, %%) -> %%;
+    <=: (%%, %%) -> Boolean;
+    =: (%%, %%) -> Boolean;
+    apply: (%%, MachineInteger) -> MachineInteger;
+    set!: (%%, MachineInteger, MachineInteger) -> MachineInteger;
+    zero?: %% -> Boolean;
+    #: %% -> MachineInteger;
+    %(longexp)s: %% -> MachineInteger;
+    %(longexp)s?: %% -> Boolean;
+} == add {
+    Rep == Record(v: MachineInteger);
+    import from Rep;
+    box(n: MachineInteger): %% == per [n];
+    unbox(b: %%): MachineInteger == rep(b).v;
+    (a: %%) + (b: %%): %% == box(unbox a + unbox b + %(k1)d);
+    -(a: %%): %% == box(-unbox a);
+    (a: %%) * (b: %%): %% == box(unbox a * unbox b);
+    (a: %%) <= (b: %%): Boolean == unbox a <= unbox b;
+    (a: %%) = (b: %%): Boolean == unbox a = unbox b;
+    apply(a: %%, i: MachineInteger): MachineInteger == unbox a + i * %(k2)d;
+    set!(a: %%, i: MachineInteger, x: MachineInteger): MachineInteger == { rep(a).v := i + x; x }
+    zero?(a: %%): Boolean == zero? unbox a;
+    #(a: %%): MachineInteger == %(k1)d;
+    %(longexp)s(a: %%): MachineInteger == unbox a + %(k2)d;
+    %(longexp)s?(a: %%): Boolean == unbox a > %(k2)d;
+}
+""" % dict(dom=dom, k1=k1, k2=k2, longexp=longexp)]
+    # NOT "u<tag>lib"/"u<tag>main": with -Csmax the pieces are called <first 5 characters>NNN.c, so two
+    # units of one directory sharing 5 characters overwrite each other (reported finding, see corpus)
+    libname, mainname = "l%su" % tag, "m%su" % tag
+    main = ['#include "aldor"', '#include "aldorio"', '#library ULIB "%s.ao"' % libname, "import from ULIB;",
+            "import from MachineInteger;", "import from %s;" % dom, ""]
+    for nm, kind in names:
+        main.append("stdout << %s(%d) << newline;" % (nm, rng.randint(1, 9)))
+    for nm, v in consts:
+        main.append("stdout << %s << newline;" % nm)
+    main += ["a: %s := box %d;" % (dom, rng.randint(1, 9)), "b: %s := box %d;" % (dom, rng.randint(1, 9)),
+             'stdout << unbox(a + b) << " " << unbox(-a) << " " << unbox(a * b) << " " << (a <= b) << " " << (a = b) << newline;',
+             'stdout << a(10) << " " << (a(1) := 4) << " " << unbox a << " " << zero? a << " " << #a << newline;',
+             'stdout << %s(a) << " " << %s?(b) << newline;' % (longexp, longexp)]
+    return {"tag": tag, "libname": libname, "mainname": mainname, "lib": "\n".join(lib) + "\n",
+            "main": "\n".join(main) + "\n", "names": [n for n, _ in names] + [c for c, _ in consts]}
+
+
+# ------------------------------------------------------------------ end-to-end: building and running
+
+def _unicl(d):
+    """private copy of the C-compiler driver (the lead may be rebuilding /repo while we run)"""
+    dst = d + "/unicl"
+    if not os.path.exists(dst):
+        shutil.copy(C.RB + "/aldor/subcmd/unitools/unicl", dst)
+        os.chmod(dst, 0o755)
+    return dst
+
+
+class E2E:
+    def __init__(self, exe):
+        self.exe = exe
+        self.root = C.scratch("c16e2e")
+        self.unicl = _unicl(self.root)
+        self.conf = C.RB + "/aldor/src/aldor.conf"
+        self.worlds = {}
+        self.env = C.aldor_env()
+        self.n_cc = 0
+
+    def base(self, world=None):
+        a = [self.exe, "-Nfile=" + self.conf]
+        if world:
+            a += ["-Y" + world + "/foam", "-Y" + world + "/aldor"]
+        a += ["-Y%s/aldor/lib/libfoam/al" % C.RB, "-I%s/lib/aldor/include" % C.RB, "-Y%s/lib/aldor/src" % C.RB]
+        return a
+
+    def cargs(self, world=None):
+        return self.base(world) + ["-Ccc=" + self.unicl, "-Y%s/aldor/lib/libfoam" % C.RB, "-laldor",
+                                   "-Cargs=-Wconfig=%s -I%s" % (self.conf, C.SRC)]
+
+    def world(self, idlen):
+        """Runtime + libaldor whose C was REGENERATED (from the shipped .ao) by the current compiler with
+        the same -Cidlen, so that import and export names agree.  None = the shipped libraries."""
+        if idlen in self.worlds:
+            return self.worlds[idlen]
+        w = "%s/world%d" % (self.root, idlen)
+        os.makedirs(w + "/ao"), os.makedirs(w + "/foam"), os.makedirs(w + "/aldor")
+        C.run(["ar", "x", C.RB + "/lib/aldor/src/libaldor.al"], cwd=w + "/ao", check=True)
+        aos = sorted(f for f in os.listdir(w + "/ao") if f.endswith(".ao"))
+        inc = ["-I", C.SRC, "-I", C.RB + "/lib/aldor/include"]
+
+        def one(f):
+            rc, out, err = C.run([self.exe, "-Nfile=" + self.conf, "-Cidlen=%d" % idlen, "-Fc", f], cwd=w + "/ao",
+                                 env=self.env, timeout=120)
+            if rc != 0 or not os.path.exists(w + "/ao/" + f[:-3] + ".c"):
+                return "aldor -Fc %s: rc=%d %s" % (f, rc, (out + err)[-400:])
+            rc, out, err = C.run(["gcc", "-w", "-ffloat-store"] + inc + ["-c", f[:-3] + ".c"], cwd=w + "/ao", timeout=300)
+            return None if rc == 0 else "gcc %s: %s" % (f, err[-600:])
+        with concurrent.futures.ThreadPoolExecutor(C.NCPU) as ex:
+            errs = [e for e in ex.map(one, aos) if e]
+        if errs:
+            self.worlds[idlen] = ("error", errs)
+            return self.worlds[idlen]
+        shutil.copy(C.RB + "/lib/aldor/src/libaldor.a", w + "/aldor/libaldor.a")
+        C.run(["ar", "r", "libaldor.a"] + ["../ao/" + f[:-3] + ".o" for f in aos], cwd=w + "/aldor", check=True)
+        rc, out, err = C.run([self.exe, "-Nfile=" + self.conf, "-Wruntime", "-Cidlen=%d" % idlen, "-Fc=runtime.c",
+                              C.RB + "/aldor/lib/libfoam/al/runtime.ao"], cwd=w + "/foam", env=self.env, timeout=120)
+        rc2, out2, err2 = C.run(["gcc", "-w", "-ffloat-store", "-I", C.SRC, "-c", "runtime.c"], cwd=w + "/foam", timeout=300)
+        if rc != 0 or rc2 != 0:
+            self.worlds[idlen] = ("error", ["runtime: " + (out + err + err2)[-600:]])
+            return self.worlds[idlen]
+        shutil.copy(C.RB + "/aldor/lib/libfoam/libfoam.a", w + "/foam/libfoam.a")
+        C.run(["ar", "r", "libfoam.a", "runtime.o"], cwd=w + "/foam", check=True)
+        self.worlds[idlen] = ("ok", w)
+        return self.worlds[idlen]
+
+    def interp(self, prog, d):
+        os.makedirs(d, exist_ok=True)
+        self._write(prog, d)
+        rc1, o1, e1 = C.run(self.base() + ["-fao", prog["libname"] + ".as"], cwd=d, env=self.env, timeout=120)
+        rc, out, err = C.run(self.base() + ["-ginterp", prog["mainname"] + ".as"], cwd=d, env=self.env, timeout=120)
+        lines = [l for l in out.splitlines() if not re.match(r"^#\d+ \(", l)]
+        return rc1, rc, "\n".join(lines) + "\n", (o1 + e1 + err + out)[-600:]
+
+    def _write(self, prog, d):
+        with open("%s/%s.as" % (d, prog["libname"]), "w", encoding="latin-1") as f:
+            f.write(prog["lib"])
+        with open("%s/%s.as" % (d, prog["mainname"]), "w", encoding="latin-1") as f:
+            f.write(prog["main"])
+
+    def names_only(self, prog, idlen, d):
+        """C of the library unit at -Cidlen (no C compiler involved): the global names it declares"""
+        os.makedirs(d, exist_ok=True)
+        self._write(prog, d)
+        rc, out, err = C.run(self.base() + ["-Cidlen=%d" % idlen, "-fao", "-fc", prog["libname"] + ".as"],
+                             cwd=d, env=self.env, timeout=120)
+        return rc, global_names(d, prog["libname"]), (out + err)[-500:]
+
+    def run_config(self, prog, cfg, d, shipped=False):
+        """cfg = (std, idlen, smax, lines).  Returns a result dict; 'stage' names where it failed."""
+        std, idlen, smax, lines = cfg
+        opts = ["-C" + std, "-Cidlen=%d" % idlen, "-Csmax=%d" % smax, "-C" + lines]
+        world = None
+        if not shipped and idlen != self.default_idlen:
+            st, w = self.world(idlen)
+            if st != "ok":
+                return {"stage": "world", "ok": False, "diag": "\n".join(w)[:1500], "opts": opts}
+            world = w
+        os.makedirs(d, exist_ok=True)
+        self._write(prog, d)
+        res = {"opts": opts, "ok": False, "world": "regenerated" if world else "shipped"}
+        rc, out, err = C.run(self.cargs(world) + opts + ["-fao", "-fo", "-fc", prog["libname"] + ".as"],
+                             cwd=d, env=self.env, timeout=900)
+        if rc != 0:
+            res.update(stage="compile-lib", diag=(out + err)[-2500:])
+            return res
+        objs = sorted(f for f in os.listdir(d) if f.startswith(prog["libname"][:5]) and f.endswith(".o"))
+        rc, out, err = C.run(self.cargs(world) + opts + ["-fc", "-fx=" + prog["mainname"] + ".exe",
+                                                         prog["mainname"] + ".as"] + objs,
+                             cwd=d, env=self.env, timeout=900)
+        res["cfiles"] = len([f for f in os.listdir(d) if f.endswith(".c")])
+        res["gnames"] = global_names(d, prog["libname"])
+        if rc != 0 or not os.path.exists("%s/%s.exe" % (d, prog["mainname"])):
+            res.update(stage="compile-link-main", diag=(out + err)[-2500:])
+            return res
+        rc, out, err = C.run(["./" + prog["mainname"] + ".exe"], cwd=d, timeout=60)
+        res.update(rc=rc, out=out)
+        if rc != 0:
+            res.update(stage="run", diag="rc=%d %s" % (rc, (out + err)[-800:]))
+            return res
+        res["ok"] = True
+        return res
+
+
+def global_names(d, libname):
+    """identifiers of external linkage / run-time linkage the unit's C mentions: G_.. pG_.. INIT_.."""
+    names = set()
+    for f in os.listdir(d):
+        if f.startswith(libname[:5]) and (f.endswith(".c") or f.endswith(".h")):
+            txt = open(os.path.join(d, f), errors="replace").read()
+            names.update(re.findall(r"\b(?:p?G_|INIT_)\w*", txt))
+    return sorted(names)
+
+
+STD = ["old", "standard"]
+IDLENS = [0, 30, 31, 40, 64]
+SMAXS = [0, 1, 5, 50]
+LINES = ["lines", "no-lines"]
+
+
+def full_matrix():
+    return [(s, i, m, l) for s in STD for i in IDLENS for m in SMAXS for l in LINES]
+
+
+def sample_matrix(rng, n):
+    """every value of every option at least once, then random combinations"""
+    cfgs = []
+    for k in range(max(len(IDLENS), len(SMAXS))):
+        cfgs.append((STD[k % 2], IDLENS[k % len(IDLENS)], SMAXS[k % len(SMAXS)], LINES[(k // 2) % 2]))
+    allc = full_matrix()
+    rng.shuffle(allc)
+    for c in allc:
+        if len(cfgs) >= n:
+            break
+        # smax=1 means one gcc run per C function (hundreds of files): at most two such in a sample
+        if c not in cfgs and not (c[2] == 1 and sum(1 for x in cfgs if x[2] == 1) >= 2):
+            cfgs.append(c)
+    return cfgs
+
+
+def opt_key(cfg, stage):
+    std, idlen, smax, lines = cfg
+    return "opt:-C%s:-Cidlen=%d:-Csmax=%d:-C%s:%s" % (std, idlen, smax, lines, stage)
+
+
+# ------------------------------------------------------------------ tie: model (extracted OCaml) vs C harness
+
+IDENT_RE = re.compile(r"^[A-Za-z_][A-Za-z0-9_]*$")
+C_KEYWORDS = set("""auto break case char const continue default do double else enum extern float for goto if inline
+int long register restrict return short signed sizeof static struct switch typedef union unsigned void volatile
+while _Bool _Complex _Imaginary _Alignas _Alignof _Atomic _Generic _Noreturn _Static_assert _Thread_local asm
+typeof fortran""".split())
+OPERATOR_NAMES = ["+", "-", "*", "/", "<=", ">=", "<", ">", "=", "~=", "^", "**", "..", "#", "apply", "set!",
+                  "empty?", "zero?", "one?", "\\/", "/\\", "~", "@", "$", "%", "&", "|", "'", "`", "->", "=>", ":=",
+                  "+->", "<<", ">>", "[]", "{}", "()", "_", "__", "_BANG_", "__BANG__", "_B", "!_", "_!", "x_",
+                  "_LT_EQ_", "<_=", "a.b", "a,b;c:d", "\"q\"", "new!", "dispose!", "bracket", "generator", "by"]
+ALNUM = "abcdefghijklmnopqrstuvwxyzABCDEFGHIJKLMNOPQRSTUVWXYZ0123456789"
+
+
+def hx(s):
+    b = s if isinstance(s, (bytes, bytearray)) else s.encode("latin-1")
+    return b.hex() if b else "-"
+
+
+def unhx(h):
+    return "" if h == "-" else bytes.fromhex(h).decode("latin-1")
+
+
+class Tie:
+    """Op-script generation, the two runners and the model-independent oracles."""
+
+    def __init__(self, params, rng):
+        self.p, self.rng = params, rng
+        self.ops = []          # (line, meta)
+        self.table = dict((chr(c), "".join(map(chr, w))) for c, w in params["tbl"])
+        self.default = params["idlen"]
+
+    # -- python reference of the ENCODING ONLY, built from the table the harness reports (oracle, not the model)
+    def cw(self, ch, table):
+        if ch in table:
+            return table[ch]
+        return ch if (ch.isalnum() and ord(ch) < 128) else ""
+
+    def add(self, line, **meta):
+        self.ops.append((line, meta))
+
+    def m(self, idlen, idhash, tag, idx, name, **meta):
+        self.add("M %d %d %s %d %s" % (idlen, idhash, hx(tag), idx, hx(name)),
+                 kind="M", idlen=idlen, idhash=idhash, tag=tag, idx=idx, name=name, **meta)
+
+    def gen(self, tier):
+        rng, p = self.rng, self.p
+        tags = [t for t in p["tags"] if t not in ("G", "pG")]
+        chars = [chr(c) for c, _ in p["tbl"]]
+        limits = [0, p["idlen"], p["idlen"] + 1, 40, 64] + ([8, 22, 29, 32, 100, 250] if tier == "thorough" else [32])
+        reps = 3 if tier == "thorough" else 1
+        base = "".join(rng.choice(ALNUM) for _ in range(100))
+        # 1. names sharing a prefix of every length 20..80, tails with operators / specials / alnum
+        for L in range(20, 81):
+            for r in range(reps):
+                pre = base[:L]
+                t1 = "".join(rng.choice(ALNUM + "".join(chars)) for _ in range(rng.randint(1, 8)))
+                t2 = "".join(rng.choice(ALNUM + "".join(chars)) for _ in range(rng.randint(1, 8)))
+                if t1 == t2:
+                    t2 += "x"
+                for idlen in limits:
+                    for nm in (pre + t1, pre + t2, pre):
+                        self.m(idlen, 1, "G", 0, nm, fam="prefix", L=L)
+                    self.m(idlen, 1, "pG", 0, pre + t1, fam="prefix", L=L)
+                tg = rng.choice(tags)
+                for nm in (pre + t1, pre + t2):
+                    self.m(rng.choice(limits), 1, tg, rng.choice([0, 1, 9, 10, 11, 99, 100, 12345, 2147483647]), nm,
+                           fam="prefix-local", L=L)
+                self.m(0, 0, "G", 0, pre + t1, fam="nohash")
+                self.m(0, 0, "G", 0, pre + t2, fam="nohash")
+        # 2. every table character: alone, doubled, around alnum, and landing on the truncation boundary
+        for ch in chars + ["a", "Z", "0", "9"]:
+            w = self.cw(ch, self.table)
+            for nm in (ch, ch + ch, "x" + ch, ch + "x", "x" + ch + "y" + ch):
+                for idlen in (0, p["idlen"]):
+                    self.m(idlen, 1, "G", 0, nm, fam="char")
+                    self.m(idlen, 1, "T", 3, nm, fam="char")
+            for idlen in limits:
+                if idlen == 0:
+                    continue
+                for pos in (0, 8):
+                    for delta in (-1, 0, 1):
+                        k = idlen - pos - len(w) + delta
+                        if k < 0:
+                            continue
+                        nm = base[:k] + ch + "tail" + ch
+                        self.add("E %d %d %s" % (idlen, pos, hx(nm)), kind="E", idlen=idlen, pos=pos, name=nm)
+                        self.m(idlen, 1, "G", 0, nm, fam="boundary")
+        # 3. operator names under every caller tag; index boundaries
+        for nm in OPERATOR_NAMES:
+            for idlen in (0, p["idlen"], 64):
+                self.m(idlen, 1, "G", 0, nm, fam="op")
+                self.m(idlen, 0, "G", 0, nm, fam="op")
+            self.add("E 0 0 %s" % hx(nm), kind="E", idlen=0, pos=0, name=nm)
+            self.add("H %s" % hx(nm), kind="H", name=nm)
+            self.add("S %s" % hx(nm), kind="S", name=nm)
+        for tg in tags:
+            for idx in (0, 1, 9, 10, 19, 99, 100, 101, 2147483647):
+                for nm in ("", "x", "set!", base[:40]):
+                    self.m(rng.choice([0, p["idlen"], 64]), 1, tg, idx, nm, fam="tags")
+            if re.match(r"^[A-Za-z]+$", tg):
+                self.add("V %d %s %d" % (p["idlen"], hx(tg), rng.randint(0, 500)), kind="V", tag=tg)
+        # 3b. bytes >= 127 and other dropped characters inside otherwise ordinary names (well-formed stream)
+        for hb in ("\x7f", "\x80", "\xe9", "\xff", " ", "\t", "\x01"):
+            for nm in ("f" + hb + "x", hb + "x", "x" + hb, base[:25] + hb + "!" + hb, hb):
+                for idlen in (0, p["idlen"], 64):
+                    self.m(idlen, 1, "G", 0, nm, fam="dropped")
+                    self.m(idlen, 1, "T", 7, nm, fam="dropped")
+                    self.add("E %d 8 %s" % (idlen, hx(nm)), kind="E", idlen=idlen, pos=8, name=nm)
+                self.add("S %s" % hx(nm), kind="S", name=nm)
+                self.add("H %s" % hx(nm), kind="H", name=nm)
+        # 4. the generator's collision witness (equal residue, equal 22-character truncation)
+        if p.get("collision"):
+            for nm in p["collision"][:2]:
+                self.m(p["idlen"], 1, "G", 0, nm, fam="witness")
+                self.m(0, 1, "G", 0, nm, fam="witness0")
+        # 5. random names over the whole printable alphabet, random limits
+        n5 = 3000 if tier == "thorough" else 400
+        alphabet = ALNUM + "".join(chars)
+        for _ in range(n5):
+            nm = "".join(rng.choice(alphabet) for _ in range(rng.randint(1, 90)))
+            idlen = rng.choice(limits + [rng.randint(1, 120)])
+            self.m(idlen, rng.choice([0, 1, 1]), rng.choice(["G", "pG"] + tags), rng.randint(0, 3000), nm, fam="random")
+            pos = rng.randint(0, 40)
+            self.add("E %d %d %s" % (idlen, pos, hx(nm)), kind="E", idlen=idlen, pos=pos, name=nm)
+            self.add("H %s" % hx(nm), kind="H", name=nm)
+        # 6. separate malformed stream: dropped characters (controls, space), odd tags, negative limit
+        self.bad = []
+        for _ in range(300 if tier == "thorough" else 80):
+            nm = "".join(rng.choice(alphabet + " \t\x01\x1f \x7f\x80\xe9\xff") for _ in range(rng.randint(1, 40)))
+            self.bad.append(("M %d %d %s %d %s" % (rng.choice(limits), 1, hx(rng.choice(["G", "T", "1x", "9", " a", "Gx", "pGx", "p", "a b"])),
+                                                   rng.randint(0, 99), hx(nm)), {"kind": "M", "bad": True}))
+            self.bad.append(("E %d %d %s" % (rng.choice(limits), rng.randint(0, 70), hx(nm)), {"kind": "E", "bad": True}))
+        self.bad.append(("M -1 1 %s 0 %s" % (hx("G"), hx("abc")), {"kind": "Mneg", "bad": True}))
+
+    # -- oracles on the implementation's results (no model involved)
+
+    def decode(self, out, table):
+        """greedy decoding of an encoder output into characters; None if it is not a sequence of whole escapes"""
+        inv = dict((w, ch) for ch, w in table.items())
+        res, i = [], 0
+        while i < len(out):
+            c = out[i]
+            if c != "_" and c.isalnum():
+                res.append(c)
+                i += 1
+                continue
+            hit = [w for w in inv if out.startswith(w, i)]
+            if len(hit) != 1:
+                return None
+            res.append(inv[hit[0]])
+            i += len(hit[0])
+        return "".join(res)
+
+    def oracle_E(self, meta, out, table):
+        """no_split_escape on the C result"""
+        name, idlen, pos = meta["name"], meta["idlen"], meta["pos"]
+        kept = "".join(ch for ch in name if self.cw(ch, table))
+        dec = self.decode(out, table)
+        if dec is None:
+            return "output %r is not a sequence of whole escapes" % out
+        if not kept.startswith(dec):
+            return "output %r decodes to %r, not a prefix of the name" % (out, dec)
+        if idlen and pos <= idlen and pos + len(out) > idlen:
+            return "output %r crosses the limit %d from position %d" % (out, idlen, pos)
+        if idlen == 0 and dec != kept:
+            return "no limit but the name was cut: %r" % out
+        return None
+
+
+def run_lines(exe, lines, timeout=600):
+    rc, out, err = C.run([exe], input="\n".join(lines) + "\n", timeout=timeout)
+    res = out.split("\n")
+    if res and res[-1] == "":
+        res.pop()
+    return rc, res, err
+
+
+# ------------------------------------------------------------------ searchers over the table (used when a proof obligation breaks)
+
+def find_ambiguous_pair(table, max_nodes=200000):
+    """Two distinct printable names with the same encoding (Sardinas-Patterson style search over the
+    dangling suffix), or None when the code is uniquely decodable."""
+    alpha = [c for c in ALNUM] + sorted(table)
+    cw = {}
+    for ch in alpha:
+        w = table.get(ch, ch if ch.isalnum() else "")
+        if w:
+            cw[ch] = w
+    import collections
+    q = collections.deque()
+    seen = set()
+    for a in cw:
+        for b in cw:
+            if a != b and cw[b].startswith(cw[a]):
+                d = cw[b][len(cw[a]):]           # s1 = a (shorter encoding), s2 = b, dangling d belongs to s2
+                q.append((d, a, b))
+    n = 0
+    while q and n < max_nodes:
+        d, s1, s2 = q.popleft()                  # enc(s1) + d == enc(s2)
+        n += 1
+        if d == "":
+            if s1 != s2:
+                return s1, s2
+            continue
+        if (d, len(s1) > len(s2)) in seen and n > 2000:
+            continue
+        seen.add((d, len(s1) > len(s2)))
+        for c, w in cw.items():
+            if d.startswith(w):
+                q.append((d[len(w):], s1 + c, s2))
+            elif w.startswith(d):
+                q.append((w[len(d):], s2, s1 + c))
+    return None
+
+
+# ------------------------------------------------------------------ the check
+
+class Ctx:
+    def __init__(self, rep, tier, p):
+        self.rep, self.tier, self.p = rep, tier, p
+        self.h = None
+        self.ml = None
+        self.ctable = None
+
+    def harness(self):
+        if self.h is None:
+            files = []
+            for v in ("libport_a_SOURCES", "libgen_a_SOURCES", "libstruct_a_SOURCES", "libphase_a_SOURCES"):
+                files += C.makefile_am_sources(v)
+            files = [f for f in dict.fromkeys(files) if f != "genc.c"] + ["axlcomp.c", "cmdline.c"]
+            self.h = C.build_harness("cname", "cname/h.c", files)
+            rc, res, err = run_lines(self.h, ["T"])
+            if rc != 0 or not res or not res[0].startswith("T "):
+                raise C.BuildError("cname harness does not run: rc=%d %s" % (rc, err[-300:]))
+            f = res[0].split(" ")
+            self.cconst = dict(var_hash=int(f[1]), var_hash_max=int(f[2]), idlen=int(f[3]), smax=int(f[4]), idhash=int(f[5]))
+            self.ctable = {}
+            self.crows = []
+            for r in f[6:]:
+                k, _, w = r.partition(":")
+                self.ctable[chr(int(k))] = w
+                self.crows.append((int(k), [ord(x) for x in w]))
+        return self.h
+
+    def model(self):
+        if self.ml is None:
+            self.ml = C.build_ocaml("cname", [C.COQ + "/CName/extracted/cname.mli", C.COQ + "/CName/extracted/cname.ml"],
+                                    C.COQ + "/CName/driver.ml")
+        return self.ml
+
+    def c_mangle(self, idlen, idhash, tag, idx, name):
+        rc, res, err = run_lines(self.harness(), ["M %d %d %s %d %s" % (idlen, idhash, hx(tag), idx, hx(name))])
+        return unhx(res[0]) if res else None
+
+    # --- searcher called by proof_stage when make / the property file fails
+    def searcher(self, log):
+        rep = self.rep
+        try:
+            self.harness()
+        except C.BuildError as e:
+            rep.notes.append("searcher: harness does not build: %s" % str(e)[:300])
+            return
+        table = self.ctable
+        # (a) the escape table is no longer uniquely decodable: two names, one C name (no truncation involved)
+        pair = find_ambiguous_pair(table)
+        if pair:
+            s1, s2 = pair
+            o1, o2 = self.c_mangle(0, 1, "G", 0, s1), self.c_mangle(0, 1, "G", 0, s2)
+            l1, l2 = self.c_mangle(0, 1, "T", 1, s1), self.c_mangle(0, 1, "T", 1, s2)
+            if l1 == l2 or o1 == o2:
+                rep.violation("escape table is not a prefix code: distinct names %r and %r get the same C name %r "
+                              "(gc0MultVarId, idlen=0)" % (s1, s2, l1),
+                              {"kind": "harness", "ops": ["M 0 1 %s 1 %s" % (hx("T"), hx(s1)), "M 0 1 %s 1 %s" % (hx("T"), hx(s2))],
+                               "expect": "distinct", "names": [s1, s2], "c_names": [l1, l2, o1, o2]},
+                              key="tbl-ambiguous:%s:%s" % (s1, s2))
+        # (b) an escape that is not made of identifier characters
+        for ch, w in sorted(table.items()):
+            if not re.match(r"^[A-Za-z0-9_]+$", w):
+                o = self.c_mangle(0, 1, "T", 1, "x" + ch)
+                if o is not None and not IDENT_RE.match(o):
+                    rep.violation("escape of %r is %r: gc0MultVarId(\"T\",1,%r) = %r is not a C identifier" % (ch, w, "x" + ch, o),
+                                  {"kind": "harness", "ops": ["M 0 1 %s 1 %s" % (hx("T"), hx("x" + ch))], "expect": "identifier"},
+                                  key="tbl-nonident:%d" % ord(ch))
+        # (c) caller tags after which the index is ambiguous
+        seen = {}
+        for tg in self.p["tags"]:
+            if tg in ("G", "pG"):
+                continue
+            lines = ["M %d 1 %s %d %s" % (self.p["idlen"], hx(tg), i, hx(nm)) for i in range(0, 130) for nm in ("", "x")]
+            rc, res, err = run_lines(self.h, lines)
+            k = 0
+            for i in range(0, 130):
+                for nm in ("", "x"):
+                    o = res[k] if k < len(res) else None
+                    k += 1
+                    if o in seen and seen[o][:2] != (tg, i):
+                        rep.violation("caller tags %r index %d and %r index %d give the same C name %r" % (
+                            seen[o][0], seen[o][1], tg, i, unhx(o)),
+                            {"kind": "harness", "ops": [lines[k - 1], seen[o][3]], "expect": "distinct"},
+                            key="tag-ambiguous:%s:%s" % (seen[o][0], tg))
+                        return
+                    seen[o] = (tg, i, nm, lines[k - 1])
+
+    # --- correspondence + model-independent oracles
+    def tie(self, model_ok):
+        rep, p = self.rep, self.p
+        self.harness()
+        # translator cross-check against the COMPILED table / constants
+        if self.crows != [(c, list(w)) for c, w in p["tbl"]] or any(self.cconst[k] != p[k] for k in self.cconst):
+            rep.violation("translator: table/constants read from genc.c differ from the compiled ones",
+                          {"translated": {"tbl": p["tbl"], **{k: p[k] for k in self.cconst}},
+                           "compiled": {"tbl": self.crows, **self.cconst}}, no_input=True)
+        t = Tie(p, C.rng("c16-tie"))
+        t.gen(self.tier)
+        lines = [l for l, _ in t.ops]
+        blines = [l for l, _ in t.bad if not l.startswith("M -1")]
+        rc, cres, cerr = run_lines(self.h, lines + blines)
+        if rc != 0 or len(cres) != len(lines) + len(blines):
+            rep.violation("C harness failed on the op script: rc=%d, %d of %d results" % (rc, len(cres), len(lines) + len(blines)),
+                          {"rc": rc, "stderr": cerr[-500:], "next_op": (lines + blines)[len(cres)] if len(cres) < len(lines) + len(blines) else None},
+                          no_input=True)
+            return
+        mism = []
+        nval = 0
+        if model_ok:
+            ml = self.model()
+            rc, mres, merr = run_lines(ml, lines + blines)
+            if len(mres) != len(cres):
+                rep.violation("model driver failed: %d of %d results" % (len(mres), len(cres)), {"stderr": merr[-500:]}, no_input=True)
+            else:
+                for i, (a, b) in enumerate(zip(cres, mres)):
+                    if a != b:
+                        mism.append(i)
+                nval = len(cres)
+        table = self.ctable
+        viol = 0
+        # ---- oracles on every implementation result
+        groups = {}
+        distinct = set()
+        ncoll = 0
+        for i, (line, meta) in enumerate(t.ops):
+            out = unhx(cres[i]) if meta["kind"] != "S" else cres[i]
+            distinct.add(cres[i])
+            if meta["kind"] == "E":
+                bad = t.oracle_E(meta, out, table)
+                if bad:
+                    viol += 1
+                    rep.violation("gc0ValidIdInBuf(idlen=%d,pos=%d,%r): %s" % (meta["idlen"], meta["pos"], meta["name"], bad),
+                                  {"kind": "harness", "ops": [line], "expect": "whole-escapes"},
+                                  key="split-escape:%d:%s" % (meta["idlen"], hx(meta["name"])[:40]))
+                    if viol > 5:
+                        break
+            elif meta["kind"] in ("M", "V"):
+                in_scope = meta["kind"] == "V" or meta["idlen"] == 0 or meta["idlen"] >= p["idlen"]
+                if in_scope and (not IDENT_RE.match(out) or out in C_KEYWORDS):
+                    viol += 1
+                    rep.violation("%s gives %r: not a C identifier" % (line, out),
+                                  {"kind": "harness", "ops": [line], "expect": "identifier"}, key="nonident:" + line[:60])
+                # distinctness is claimed for limits >= the default and for 0 (the property's quantifier)
+                if meta["kind"] == "M" and (meta["idlen"] == 0 or meta["idlen"] >= p["idlen"]):
+                    glob = meta["tag"] in ("G", "pG")
+                    ent = (meta["tag"], meta["name"]) if glob else (meta["tag"], meta["idx"])
+                    g = groups.setdefault((meta["idlen"], meta["idhash"], glob), {})
+                    if out in g and g[out][0] != ent:
+                        other = g[out]
+                        wit = set((p.get("collision") or ())[:2])
+                        if (meta.get("fam") == "witness" and meta["idlen"] == p["idlen"] and meta["idhash"] == 1
+                                and glob and {other[0][1], ent[1]} == wit and other[0][0] == ent[0] == "G"):
+                            # exactly the generator's birthday pair at the default limit: the known design limit
+                            k = "name:global-hash-collision:default-options"
+                        else:
+                            k = "collision:%d:%d:%s" % (meta["idlen"], meta["idhash"], out)
+                        viol += 1
+                        ncoll += 1
+                        if ncoll > 5:
+                            continue
+                        rep.violation("two entities, one C name: %r and %r both become %r (idlen=%d, idhash=%d)" % (
+                            other[0], ent, out, meta["idlen"], meta["idhash"]),
+                            {"kind": "harness", "ops": [other[1], line], "expect": "distinct"}, key=k)
+                    g.setdefault(out, (ent, line))
+        # negative limit is clamped to 1 (genCSetIdLen)
+        rc, r2, _ = run_lines(self.h, ["M -1 1 %s 0 %s" % (hx("G"), hx("abc")), "M 1 1 %s 0 %s" % (hx("G"), hx("abc"))])
+        if len(r2) == 2 and r2[0] != r2[1]:
+            rep.violation("genCSetIdLen(-1) is not the limit 1", {"kind": "harness", "ops": ["M -1 1 47 0 616263", "M 1 1 47 0 616263"],
+                                                                   "expect": "equal"}, key="idlen-clamp")
+        # option decoding (ccOption): direct expectation
+        dl, ds, dh = self.cconst["idlen"], self.cconst["smax"], self.cconst["idhash"]
+        optexp = [("idlen=0", (0, 0, ds, dh, 0)), ("idlen=31", (0, 31, ds, dh, 0)), ("idlen=64", (0, 64, ds, dh, 0)),
+                  ("IdLen=40", (0, 40, ds, dh, 0)), ("idlen=-5", (0, 1, ds, dh, 0)), ("smax=0", (0, dl, 0, dh, 0)),
+                  ("smax=1", (0, dl, 1, dh, 0)), ("smax=50", (0, dl, 50, dh, 0)), ("smax=-2", (0, dl, 1, dh, 0)),
+                  ("no-idhash", (0, dl, ds, 0, 0)), ("idhash", (0, dl, ds, 1, 0)), ("lines", (0, dl, ds, dh, 1)),
+                  ("no-lines", (0, dl, ds, dh, 0)), ("standard", (0, dl, ds, dh, 0)), ("old", (0, dl, ds, dh, 0)),
+                  ("nonsense", (-1, dl, ds, dh, 0))]
+        rc, r3, _ = run_lines(self.h, ["O " + o for o, _ in optexp])
+        for (o, exp), got in zip(optexp, r3):
+            if tuple(int(x) for x in got.split()) != exp:
+                viol += 1
+                rep.violation("ccOption(%r): rc idlen smax idhash lines = %s, expected %s" % (o, got, exp),
+                              {"kind": "harness", "ops": ["O " + o], "expect": "option", "want": list(exp)}, key="option:" + o)
+        # ---- mismatches model / implementation
+        if mism:
+            i = mism[0]
+            allops = t.ops + t.bad
+            line = (lines + blines)[i]
+            small = self.shrink(line)
+            rep.violation("correspondence cname no longer checks: model and genc.c differ on %s (C %s, model %s); %d of %d ops differ; "
+                          "the model-independent oracles found %s" % (small[0], small[1], small[2], len(mism), len(cres),
+                                                                      "%d property failures (reported above)" % viol if viol else "no property failure"),
+                          {"kind": "harness-vs-model", "ops": [small[0]], "c": small[1], "model": small[2],
+                           "first_unshrunk": line, "n_mismatch": len(mism)}, no_input=(viol == 0),
+                          key=None if viol == 0 else "mismatch:" + small[0][:60])
+        rep.add_cov(evaluations=len(cres), distinct_nontrivial=len(distinct), traces_validated_against_impl=nval,
+                    rule="every op line is evaluated by the C harness (#include of the current genc.c) and by the extracted model; "
+                         "results compared textually; oracles (whole escapes, identifier syntax, keyword, distinctness per "
+                         "(idlen,idhash) group, option decoding) run on the C results without the model",
+                    samples=[l for l in lines[:3] + lines[len(lines) // 2:len(lines) // 2 + 3]],
+                    input_distribution={"ops": len(lines), "malformed_ops": len(blines),
+                                        "families": _count(m.get("fam", m["kind"]) for _, m in t.ops),
+                                        "prefix_lengths": "20..80 (every length)", "limits": sorted(set(m.get("idlen", 0) for _, m in t.ops))[:40]})
+
+    def shrink(self, line):
+        """shorten the name of a mismatching op while C and model still differ"""
+        f = line.split(" ")
+        ni = len(f) - 1 if f[0] in ("M", "E", "H", "S") else 2
+
+        def differ(fields):
+            l = " ".join(fields)
+            _, a, _ = run_lines(self.h, [l])
+            _, b, _ = run_lines(self.model(), [l])
+            return (a[:1] != b[:1]), (a[0] if a else None), (b[0] if b else None)
+        d, a, b = differ(f)
+        if not d:
+            return line, a, b
+        name = unhx(f[ni])
+        changed = True
+        while changed and len(name) > 1:
+            changed = False
+            for cand in (name[len(name) // 2:], name[:len(name) // 2], name[1:], name[:-1]):
+                g = list(f)
+                g[ni] = hx(cand)
+                d2, a2, b2 = differ(g)
+                if d2:
+                    name, f, a, b, changed = cand, g, a2, b2, True
+                    break
+        return " ".join(f), a, b
+
+
+def _count(it):
+    d = {}
+    for x in it:
+        d[x] = d.get(x, 0) + 1
+    return d
+
+
+# ------------------------------------------------------------------ end-to-end stage
+
+def load_corpus():
+    d = C.VERIF + "/corpus/" + ID
+    out = []
+    if os.path.isdir(d):
+        for f in sorted(os.listdir(d)):
+            if f.endswith(".json"):
+                out.append((f, json.load(open(os.path.join(d, f)))))
+    return out
+
+
+def prog_replay(prog, cfg, shipped, want):
+    return {"kind": "e2e", "prog": {k: prog[k] for k in ("libname", "mainname", "lib", "main")},
+            "cfg": list(cfg), "shipped": shipped, "want": want}
+
+
+def check_one(e, prog, cfg, d, shipped, want_out):
+    """Run one configuration and classify: returns (stage or None, detail, result)"""
+    r = e.run_config(prog, cfg, d, shipped=shipped)
+    if not r["ok"]:
+        return r["stage"], r.get("diag", ""), r
+    if r["out"] != want_out:
+        return "output", "got %r, default-option build / interpreter print %r" % (r["out"][:300], want_out[:300]), r
+    return None, "", r
+
+
+def e2e_stage(rep, tier, p):
+    exe = C.build_compiler()
+    e = E2E(exe)
+    e.default_idlen = p["idlen"]
+    default_cfg = ("old", p["idlen"], p["smax"], "no-lines")
+    rng = C.rng("c16-e2e")
+    stats = {"programs": 0, "configs": 0, "c_files": 0, "worlds": 0, "corpus": 0, "passed": 0}
+    t0 = time.time()
+
+    # ---- corpus of past failures first
+    for fname, item in load_corpus():
+        stats["corpus"] += 1
+        prog, cfg = item["prog"], tuple(item["cfg"])
+        d = "%s/corpus%d" % (e.root, stats["corpus"])
+        _, rci, iout, idiag = e.interp(prog, d + "i")
+        stage, detail, r = check_one(e, prog, cfg, d, item.get("shipped", False), iout)
+        if stage:
+            # the known key only for exactly the recorded failure (stage and diagnostic); anything else is new
+            exp = item.get("expect", {})
+            same = stage == exp.get("stage") and re.search(exp.get("detail", "^$"), detail, re.S) is not None
+            key = item["key"] if same else "%s:unexpected:%s" % (item["key"], stage)
+            rep.violation("%s: %s (%s) with %s" % (item["what"] if same else "corpus %s fails differently than recorded" % fname,
+                                                   stage, detail[-400:].replace("\n", " | "), " ".join(r["opts"])),
+                          prog_replay(prog, cfg, item.get("shipped", False), iout), key=key)
+
+    # ---- generated programs x option matrix
+    nprog = 6 if tier == "thorough" else 1
+    seedtag = "s%d" % (C.seed() % 100000)
+    for k in range(nprog):
+        prog = gen_program(C.rng("c16-prog-%d" % k), "%sp%d" % (seedtag, k))
+        stats["programs"] += 1
+        pd = "%s/p%d" % (e.root, k)
+        rcl, rci, iout, idiag = e.interp(prog, pd + "/interp")
+        if rcl != 0 or not iout.strip():
+            rep.violation("generated program is not accepted / prints nothing with -ginterp: %s" % idiag[-300:],
+                          prog_replay(prog, default_cfg, False, None), no_input=True)
+            continue
+        if rci != 0:
+            rep.notes.append("-ginterp exit status %d on a generated program (output taken from stdout): %s" % (rci, idiag[-200:]))
+        stage, detail, r0 = check_one(e, prog, default_cfg, pd + "/default", False, iout)
+        if stage:
+            rep.violation("default C options: %s: %s" % (stage, detail[-400:].replace("\n", " | ")),
+                          prog_replay(prog, default_cfg, False, iout), key=opt_key(default_cfg, stage))
+            continue
+        cfgs = full_matrix() if tier == "thorough" else sample_matrix(rng, 12)
+        # reference name sets without truncation (idlen = 0), per (std, smax): no C compiler involved
+        refnames = {}
+
+        def ref(std, smax):
+            if (std, smax) not in refnames:
+                d = "%s/ref-%s-%d" % (pd, std, smax)
+                os.makedirs(d, exist_ok=True)
+                e._write(prog, d)
+                rc, out, err = C.run(e.base() + ["-C" + std, "-Cidlen=0", "-Csmax=%d" % smax, "-fao", "-fc", prog["libname"] + ".as"],
+                                     cwd=d, env=e.env, timeout=120)
+                refnames[(std, smax)] = global_names(d, prog["libname"]) if rc == 0 else None
+            return refnames[(std, smax)]
+        for i in sorted(set(c[1] for c in cfgs)):
+            if i != p["idlen"]:
+                st, w = e.world(i)
+                stats["worlds"] += 1
+                if st != "ok":
+                    rep.violation("runtime/libaldor C regenerated with -Cidlen=%d does not build: %s" % (i, "\n".join(w)[:600]),
+                                  {"kind": "world", "idlen": i, "errors": w[:5]}, key="opt:-Cidlen=%d:library-rebuild" % i)
+        for c in cfgs:
+            ref(c[0], c[2])
+
+        def one(j):
+            return check_one(e, prog, cfgs[j], "%s/c%d" % (pd, j), False, iout)
+        with concurrent.futures.ThreadPoolExecutor(C.NCPU) as ex:
+            results = list(ex.map(one, range(len(cfgs))))
+        for cfg, (stage, detail, r) in zip(cfgs, results):
+            stats["configs"] += 1
+            stats["c_files"] += r.get("cfiles", 0)
+            if stage:
+                if stage == "world":
+                    continue
+                rep.violation("%s: %s: %s" % (" ".join(r["opts"]), stage, detail[-500:].replace("\n", " | ")),
+                              prog_replay(prog, cfg, False, iout), key=opt_key(cfg, stage))
+                continue
+            stats["passed"] += 1
+            rn = ref(cfg[0], cfg[2])
+            if rn is not None and len(r["gnames"]) != len(rn):
+                rep.violation("%s: the library unit has %d distinct global C names, %d without truncation: two entities share a name" % (
+                    " ".join(r["opts"]), len(r["gnames"]), len(rn)),
+                    dict(prog_replay(prog, cfg, False, iout), names=r["gnames"], names_idlen0=rn), key=opt_key(cfg, "name-set"))
+
+    # ---- the statement as written: shipped runtime, limits other than the default
+    probe = [64] if tier == "quick" else [i for i in IDLENS if i != p["idlen"]]
+    prog = gen_program(C.rng("c16-prog-0"), "%sp0" % seedtag)
+    _, _, iout, _ = e.interp(prog, e.root + "/shipi")
+    for i in probe:
+        cfg = ("old", i, p["smax"], "no-lines")
+        stage, detail, r = check_one(e, prog, cfg, "%s/ship%d" % (e.root, i), True, iout)
+        stats["configs"] += 1
+        if stage:
+            rep.violation("-Cidlen=%d against the SHIPPED runtime and libaldor (built at the default limit %d): %s %s -- the run-time "
+                          "import names (fiImportGlobal) are the truncated C names, so any limit other than the default "
+                          "breaks linkage by name with the shipped libraries" % (i, p["idlen"], stage, detail[-200:].replace("\n", " | ")),
+                          prog_replay(prog, cfg, True, iout),
+                          key="opt:-Cidlen=%d:shipped-libs" % i if (stage == "run" and "rc=-11" in detail)
+                          else "opt:-Cidlen=%d:shipped-libs:%s" % (i, stage))
+    stats["wall_s"] = round(time.time() - t0, 1)
+    return stats
+
+
+def run(rep, tier):
+    # 1. translator
+    try:
+        text, p = generate()
+    except TranslateError as ex:
+        rep.violation("translator cannot read genc.c/strops.c any more: %s" % ex, {"error": str(ex)}, no_input=True)
+        return
+    C.write_if_changed(C.COQ + "/Gen/CNameTbl.v", text)
+    if p["drift"]:
+        rep.notes.append("drift alarm: %s no longer has the modelled text; thorough correspondence forced" % p["drift"])
+    ctx = Ctx(rep, "thorough" if p["drift"] else tier, p)
+    # 2. proof
+    ok = C.proof_stage(rep, ID, ["Props/Properties_C16.vo", "CName/Extract.vo"], "Props/Properties_C16.v", ctx.searcher)
+    model_ok = os.path.exists(C.COQ + "/CName/extracted/cname.ml")
+    if not ok:
+        # the extraction does not depend on the proofs: rebuild it so that the tie can still run
+        mk, _ = C.coq_make(["CName/Extract.vo"])
+        model_ok = mk
+    # 3. correspondence + oracles
+    ctx.tie(model_ok)
+    # 4. end to end (exploration)
+    stats = e2e_stage(rep, tier, p)
+    rep.add_cov(end_to_end=stats,
+                end_to_end_level="exploration: %d generated program(s) x %d option combinations compiled by the compiler built from "
+                                 "the current tree, gcc-compiled, linked, run; output compared with -ginterp; name sets compared "
+                                 "with the untruncated ones" % (stats["programs"], stats["configs"]))
+    rep.assume(
+        "translator: regex reading of ccSpecCharIdTable, VAR_HASH, defaults, strHash constants and caller tags "
+        "(cross-checked on every run against the compiled table/constants printed by the harness)",
+        "extraction: ExtrOcamlBasic only; driver.ml only converts ints/hex to N / list N",
+        "harness/cname/h.c #includes the current genc.c and links the rest of the compiler from the current tree",
+        "names are byte strings over 1..255; bytes without an escape (blank, controls, >= 127) are dropped by genc.c: injectivity is "
+        "stated for printable names only, names differing only in dropped bytes are separated by the hash prefix alone",
+        "NOT modelled: ccode.c printing, emit.c file splitting, old/standard prototypes, #line output, gcc: end-to-end runs only "
+        "(level exploration for that part of the property)",
+        "end-to-end limits other than the default link against runtime/libaldor whose C is regenerated from the shipped .ao files "
+        "with the same -Cidlen (2 s); against the shipped libraries they cannot work (reported finding)",
+        "the property's 'never the same C name' is not a theorem: 22 characters + a residue below 2^26 (global_names_distinct_refuted); "
+        "proved instead: a collision needs equal residue and equal truncated encoding (_partial)")
+
+
+# ------------------------------------------------------------------ replay
+
+def replay(path):
+    obj = json.load(open(path))
+    r = obj.get("replay", obj)
+    kind = r.get("kind")
+    if kind in ("harness", "harness-vs-model"):
+        rep = C.Report(ID, "quick", LEVEL)
+        text, p = generate()
+        ctx = Ctx(rep, "quick", p)
+        h = ctx.harness()
+        rc, res, err = run_lines(h, r["ops"])
+        outs = [unhx(x) if re.match(r"^([0-9a-f]{2})+$|^-$", x) else x for x in res]
+        print("ops:", r["ops"])
+        print("C results:", outs)
+        exp = r.get("expect")
+        bad = False
+        if kind == "harness-vs-model":
+            C.coq_make(["CName/Extract.vo"])
+            _, mres, _ = run_lines(ctx.model(), r["ops"])
+            print("model results:", [unhx(x) for x in mres])
+            bad = mres != res
+        elif exp == "distinct":
+            bad = len(set(outs)) < len(outs)
+        elif exp == "equal":
+            bad = len(set(outs)) > 1
+        elif exp == "identifier":
+            bad = any(not IDENT_RE.match(o) or o in C_KEYWORDS for o in outs)
+        elif exp == "whole-escapes":
+            t = Tie(p, C.rng("r"))
+            f = r["ops"][0].split()
+            bad = t.oracle_E({"idlen": int(f[1]), "pos": int(f[2]), "name": unhx(f[3])}, outs[0], ctx.ctable) is not None
+        elif exp == "option":
+            bad = [int(x) for x in res[0].split()] != r["want"]
+        print("VIOLATED" if bad else "holds")
+        return 1 if bad else 0
+    if kind == "e2e":
+        text, p = generate()
+        e = E2E(C.build_compiler())
+        e.default_idlen = p["idlen"]
+        prog, cfg = r["prog"], tuple(r["cfg"])
+        _, _, iout, _ = e.interp(prog, e.root + "/i")
+        stage, detail, res = check_one(e, prog, cfg, e.root + "/c", r.get("shipped", False), r.get("want") or iout)
+        print("options:", " ".join(res["opts"]), "libraries:", res.get("world"))
+        print("interpreter output:", repr(iout[:300]))
+        print("result:", stage or "ok", detail[-1500:])
+        return 1 if stage else 0
+    print("replay file has no re-runnable input:", obj.get("what"))
+    return 1
